@@ -132,6 +132,7 @@ def plan_c04(tier, seed):
         add("g8", 1, 1, 1); add("g8", 2, 1, 2)
         add("g8b", 2, 1, 1)
         add("g8g", 2, 1, 1); add("g8g", 3, 1, 2)
+        add("g7c", 2, 1, 1); add("g7c", 2, 1, 2)   # a dead-end out-port beside the driver's feed, stream longer than the buffer
         add("g6b", 2, 1, 2, rev_src=True, id="C04-g6b-i2-m2-reverse-name-order")   # pairing follows arrival order, not name order
         add("g6", 1, 1, 1)
         add("g9", 1, 1, 2)
@@ -143,7 +144,7 @@ def plan_c04(tier, seed):
         add("g8", 3, 1, 2, "func", extra="emptyparam-setout", id="C04-g8-i3-m2-empty-param-in-path")
         add("g6b", 2, 1, 2, pre={"in1.txt.p": "p.out(in=in1.txt;)"}, id="C04-g6b-i2-m2-pre1")
         add("g6b", 3, 1, 3, pre={"in1.txt.p": "p.out(in=in1.txt;)", "in2.txt.p": "p.out(in=in2.txt;)"}, id="C04-g6b-i3-m3-pre12")
-        for g in ("g2", "g3", "g4", "g5", "g5b", "g6", "g6b", "g7", "g8", "g8b", "g8g", "g9", "g12", "g14", "g14a"):
+        for g in ("g2", "g3", "g4", "g5", "g5b", "g6", "g6b", "g7", "g7c", "g8", "g8b", "g8g", "g9", "g12", "g14", "g14a"):
             for i in (0, 1, 2, 3):
                 for b in (1, 2):
                     for m in (1, 2, 3):
@@ -217,7 +218,7 @@ def plan_c05(tier, seed):
         add("g11", 1, 1, 1); add("g11", 2, 1, 2)
         add("g4", 1, 1, 1); add("g5", 1, 1, 1); add("g7", 1, 1, 1); add("g8", 1, 1, 1); add("g9", 1, 1, 2); add("g8g", 2, 1, 1); add("g8g", 3, 1, 2)
         add("g12", 3, 1, 1)
-        add("g10b", 1, 1, 2); add("g10b", 3, 1, 1); add("g10b", 6, 1, 2, mode="delay", delay=1, id="C05-g10b-i6-b1-m2-delay1")  # stream well beyond the buffers: the sink must run concurrently with the driver
+        add("g10b", 1, 1, 2); add("g10b", 3, 1, 1); add("g7c", 2, 1, 2); add("g10b", 6, 1, 2, mode="delay", delay=1, id="C05-g10b-i6-b1-m2-delay1")  # stream well beyond the buffers: the sink must run concurrently with the driver
         # slot configurations: multi-core tasks competing for the slots (partial acquisition)
         add("g2", 2, 1, 2, cores=[2]); add("g13", 1, 1, 2, cores=[2, 2]); add("g13", 1, 1, 3, cores=[2, 2]); add("g3", 2, 1, 2, cores=[2, 1])
         add("g3", 1, 1, 1, runto=["p"], id="C05-g3-runto-p")
@@ -299,6 +300,9 @@ def plan_c06(tier, seed):
     jobs.append(with_delay_fallback(wf("C06", "g2", 3, 1, 1, oracles=o, tier=tier, pre={"in0.txt.p": "p.out(in=in0.txt;)"}, id="C06-g2-i3-m1-pre0")))
     jobs.append(with_delay_fallback(wf("C06", "g2", 3, 1, 2, oracles=o, tier=tier, pre={"in1.txt.p": "p.out(in=in1.txt;)"}, id="C06-g2-i3-m2-pre1")))
     jobs.append(with_delay_fallback(wf("C06", "g2", 3, 2, 1, "cmd", oracles=o, tier=tier, pre={"in0.txt.p": "p.out(in=in0.txt;)", "in2.txt.p": "p.out(in=in2.txt;)"}, id="C06-g2-i3-m1-pre02-cmd")))
+    # commands started through a launcher (Process.Prepend) count like any other
+    jobs.append(with_delay_fallback(wf("C06", "g2", 2, 1, 1, "cmd", oracles=o, tier=tier, extra="prepend", events_dep=True, id="C06-g2-i2-m1-cmd-prepend")))
+    jobs.append(with_delay_fallback(wf("C06", "g3", 2, 1, 2, "cmd", oracles=o, tier=tier, extra="prepend", events_dep=True, id="C06-g3-i2-m2-cmd-prepend")))
     # a process that asks for MORE cores per task than the workflow has: whatever the library does with it
     # (it refuses to start), the weighted sum of what executes never exceeds the maximum
     for mx, cores in ((2, [3, 1]), (1, [2, 1]), (2, [1, 3])):
@@ -680,6 +684,10 @@ def plan_c09(tier, seed):
                     for kind in ("cmd", "func"):
                         add(g, i, 1, m, kind, p, mt, fk)
                 add(g, i, 1, m, "func", p, mt, "panic-mid")
+    # a failing task in a workflow whose sink drains a dead-end file port AND a dead-end parameter port
+    for (p_, mt) in (("p", "in0.txt"), ("p", "in1.txt")):
+        for fk in ("exit-after", "exit-mid"):
+            add("g8g", 2, 1, 2, "cmd", p_, mt, fk)
     # tasks that cannot be formed
     for extra in ("emptyparam", "badpath", "missingtag", "missingtag-setout", "missingparam-setout"):
         for kind in ("cmd", "func"):
@@ -846,7 +854,7 @@ def plan_c02(tier, seed):
     o = ["nohang", "clean", "c02", "c04"]
     def stage1(ctx, prev):
         jobs = []
-        combos = [("g2", 2, 2, "cmd"), ("g3", 1, 1, "cmd"), ("g3", 2, 1, "func"), ("g7", 1, 2, "cmd"), ("g8", 1, 1, "cmd"), ("g6b", 2, 1, "func"), ("g3", 1, 1, "cmd", "absout"), ("g2", 1, 1, "cmd", "subdir"), ("g7b", 1, 2, "cmd"), ("g8d", 1, 1, "cmd"), ("g3", 1, 1, "cmd", "setout-only")]
+        combos = [("g2", 2, 2, "cmd"), ("g3", 1, 1, "cmd"), ("g3", 2, 1, "func"), ("g7", 1, 2, "cmd"), ("g8", 1, 1, "cmd"), ("g6b", 2, 1, "func"), ("g3", 1, 1, "cmd", "absout"), ("g2", 1, 1, "cmd", "subdir"), ("g7b", 1, 2, "cmd"), ("g8d", 1, 1, "cmd"), ("g3", 1, 1, "cmd", "setout-only"), ("g3", 1, 1, "cmd", "dirout")]
         if tier != "quick":
             combos += [("g3", 2, 2, "cmd"), ("g6", 1, 2, "cmd"), ("g7", 2, 2, "func"), ("g4", 1, 2, "cmd"), ("g8", 2, 2, "func")]
         for combo in combos:
